@@ -45,15 +45,17 @@ pub open spec fn dv_bound_ok(v: v1::DecisionVariable) -> bool { inv(dv_lower(v),
               va.p_objective(), va.p_used_ids(), va.p_validate_ids(), va.p_validate_constraint_ids(), va.p_validate()):
         asm.unit(u)
     asm.raw('} // mod units\n')
-    asm.raw('pub mod tunits {\nuse vstd::prelude::*;\nuse vstd::std_specs::ops::*;\nuse super::lib::*;\nuse std::collections::{HashMap, HashSet, BTreeSet, BTreeMap};\nbroadcast use super::lib::ax_variable_id_key_model, super::lib::ax_constraint_id_key_model;\n')
+    asm.raw('pub mod tunits {\nuse vstd::prelude::*;\nuse vstd::std_specs::ops::*;\nuse super::lib::*;\nuse std::collections::{HashMap, HashSet, BTreeSet, BTreeMap};\nbroadcast use super::lib::ax_variable_id_key_model, super::lib::ax_constraint_id_key_model, super::lib::ax_constraint_id_cmp, super::lib::ax_variable_id_cmp;\n')
     bu = {u.name: u for u in bound.units()}
     for n in ('BoundError::check', 'Bound::new', 'Default for Bound'):
         asm.unit(bu[n])
     for u in (ev.bound_try_from_v1bound(), ev.bound_try_from_dv(), tp.parse_error_from_raw(), tp.parse_error_from_bound_error(), tp.parse_error_context(), tp.raw_parse_error_context(), tp.parse_as(),
               tp.kind_parse(), tp.equality_parse(), tp.sense_parse(), tp.function_parse(), tp.bound_parse(), tp.dv_parse(), tp.dvs_parse(),
               tp.constraint_parse(), tp.removed_constraint_parse(), tp.constraints_parse(), tp.removed_constraints_parse(),
-              tp.as_constraint_id(), tp.as_variable_id()):
+              tp.as_constraint_id(), tp.as_variable_id(), tp.one_hot_parse(), tp.sos1_parse(), tp.hints_parse()):
         asm.unit(u)
+    asm.file('spec/parse_spec2.rs')
+    asm.unit(tp.instance_try_from())
     asm.raw('} // mod tunits\n')
     asm.guard(common.guard_fn('c08', 'broadcast use ax_zero_f64;', uses='use super::lib::*;'), 'vacuity: axioms')
     asm.guard('''pub mod guard_c08b { use vstd::prelude::*; use super::lib::*;
